@@ -314,6 +314,7 @@ theorem evalC_load (s w t) : evalC ms σ (.load s w t) = (match lookupS "EA" σ.
 theorem evalC_post (v t op) : evalC ms σ (.post v t op) = .error (.undef "hybrid: use evalCH") := by rw [evalC]
 theorem evalC_call (n a r p) : evalC ms σ (.call n a r p) = .error (.undef "hybrid: use evalCH") := by rw [evalC]
 theorem evalC_stmtexpr (t v e) : evalC ms σ (.stmtexpr t v e) = .error (.undef "hybrid: use evalCH") := by rw [evalC]
+theorem evalC_seqexpr (n x a p v) : evalC ms σ (.seqexpr n x a p v) = .error (.undef "hybrid: use evalCH") := by rw [evalC]
 
 theorem evalCArgs_nil (ps) : evalCArgs ms σ [] ps = .ok [] := by rw [evalCArgs]
 theorem evalCArgs_cons_nil (a as) : evalCArgs ms σ (a :: as) [] = .error (.sort "macro arity") := by rw [evalCArgs]
